@@ -400,9 +400,19 @@ fn one_run_inner(ctx: &Ctx, out: &mut Outcome, run_seed: u64) {
                     continue;
                 }
                 let connected_both = w.peers[k].client.is_connected() && w.server.is_connected(id);
-                if connected_both {
+                // the server application starts sending as soon as it holds the session (ClientConnected), which may be
+                // before the client has seen the keep-alive that completes its handshake
+                let holds_session = w.server.is_connected(id) && w.st.client_addr(id).is_some() && w.st.client_addr(id) == w.peers[k].back.local_addr().ok();
+                let server_early = holds_session && w.peers[k].client.is_connecting() && !w.peers[k].connected_seen;
+                if connected_both || server_early {
                     // submissions both ways
                     for dir in 0..2u8 {
+                        if server_early && dir == 0 {
+                            continue;
+                        }
+                        if server_early {
+                            out.count("server_submissions_before_client_connected");
+                        }
                         for _ in 0..r.range(0, 2) {
                             let ch = *r.pick(&[CH_U, CH_RU, CH_RO]);
                             let len = payload::pick_len(&mut r, 5000, false);
@@ -422,7 +432,7 @@ fn one_run_inner(ctx: &Ctx, out: &mut Outcome, run_seed: u64) {
                         }
                     }
                     // disconnects
-                    if r.chance(1, 90) {
+                    if connected_both && r.chance(1, 90) {
                         let who = match r.below(3) {
                             0 => {
                                 w.server.disconnect(id);
